@@ -138,6 +138,11 @@ def _setup_pre(E, plan, tgt_path):
         f.write(b"PK-not-really")
     with open(os.path.join(E.work, "tgt_other"), "wb") as f:
         f.write(b"other")
+    # unrelated files that happen to carry names a staging scheme might pick
+    for nm in ("tgt.tmp", "tgt.partial", "tgt.zip.tmp", "tgt.zip.partial", ".tgt.tmp", "tgt~",
+               "tgt.zip~", "tgt.bak", "tgt.lock"):
+        with open(os.path.join(E.work, nm), "wb") as f:
+            f.write(b"unrelated " + nm.encode())
     if plan["pre"] == "file":
         with open(tgt_path, "wb") as f:
             # empty, tiny and larger foreign files (size-dependent handling must not exist)
